@@ -141,6 +141,23 @@ def run(tier, seed):
             real.build()
             items.append(('%s_%d' % (tag, c['id']), real.portfolio, real.prices, real.timegrid))
     traces, meta = traces_of(chk, items, 'assembly')
+    # the SAME portfolio object set up a second time, on a grid of equal length that starts two hours later (rolling window): sizes agree with the
+    # first set-up, the content of the mapping does not -- nothing structural may be carried over from the first set-up
+    import datetime as _dt
+    again = []
+    for z in zoo.ZOO:
+        name, pf, pr, tg = z(seed)
+        if tg.freq != 'h':
+            continue
+        try:
+            with quiet():
+                pf.setup_optim_problem(pr, tg)
+            again.append((name, pf, pr, zoo.grid(tg.T, start=zoo.START + _dt.timedelta(hours=2))))
+        except Exception:
+            continue
+    tr2, me2 = traces_of(chk, again, 'assembly_second_setup')
+    traces += tr2
+    meta += me2
     # every interval problem of a split set-up is a problem in its own right: its own mapping must describe its own variables
     for s_ in range(seed, seed + (1 if not th else 3)):
         for z in zoo.ZOO:
